@@ -40,9 +40,18 @@ Definition RW (c : core) : Prop := t_valid P (request P c) = true -> t_dest P (r
 
 (* ---- the plan's structural invariant, abstract here: what the machine needs to know about it ---- *)
 Variable PI : plan_data P -> Prop.
+(* the masks the plan step builds for its deferred clearing: all ones, then single bits cleared *)
+Inductive tcmask : ba -> Prop :=
+| tm_full : tcmask (ba_set_all (N.of_nat n) (ba_init (N.of_nat n)))
+| tm_clear b i : tcmask b -> tcmask (ba_clear b i).
+
 Record plan_inv_ok : Prop := {
-  pio_succ : forall d b, PI d -> PI (pd_with_succ P d b);
-  pio_fail : forall d b, PI d -> PI (pd_with_fail P d b);
+  (* the report bits change only through set(i), clear(i) and (successes) &= mask: the invariant may constrain the bit arrays *)
+  pio_succ_set : forall d i, PI d -> PI (pd_with_succ P d (ba_set (pd_succ d) i));
+  pio_succ_clear : forall d i, PI d -> PI (pd_with_succ P d (ba_clear (pd_succ d) i));
+  pio_succ_and : forall d tc, PI d -> tcmask tc -> PI (pd_with_succ P d (ba_and_assign (pd_succ d) tc));
+  pio_fail_set : forall d i, PI d -> PI (pd_with_fail P d (ba_set (pd_fail d) i));
+  pio_fail_clear : forall d i, PI d -> PI (pd_with_fail P d (ba_clear (pd_fail d) i));
   pio_statuses : forall d h s, PI d -> PI (pd_with_statuses P d h s);
   pio_append : forall d o dst, PI d -> o < n -> dst < n -> PI (fst (plan_append P cap d o dst));
   pio_append_with : forall d o dst p, PI d -> o < n -> dst < n -> PI (fst (plan_append_with P cap d o dst p));
@@ -58,8 +67,11 @@ Record plan_inv_ok : Prop := {
   pio_indices_bits : forall d b, plan_indices P cap (pd_with_succ P d b) = plan_indices P cap d
 }.
 Hypothesis HPI : plan_inv_ok.
-Local Notation PI_succ := (pio_succ HPI).
-Local Notation PI_fail := (pio_fail HPI).
+Local Notation PI_succ_set := (pio_succ_set HPI).
+Local Notation PI_succ_clear := (pio_succ_clear HPI).
+Local Notation PI_succ_and := (pio_succ_and HPI).
+Local Notation PI_fail_set := (pio_fail_set HPI).
+Local Notation PI_fail_clear := (pio_fail_clear HPI).
 Local Notation PI_statuses := (pio_statuses HPI).
 Local Notation PI_append := (pio_append HPI).
 Local Notation PI_append_with := (pio_append_with HPI).
@@ -145,11 +157,11 @@ Proof.
     split; [apply fr_log_rec; exact I|]. repeat split; auto.
   - destruct (can_change (k_kind P k) && c_plans cfg && negb (_ =? INVALID)).
     + split; [|repeat split; auto]. eapply fr_trans; [|apply fr_log_rec; exact I].
-      apply fr_upd_core; auto. cbn [set_plan plan]. apply PI_succ.
+      apply fr_upd_core; auto. cbn [set_plan plan]. apply PI_succ_set.
     + split; [apply fr_refl|apply same_ctl_refl].
   - destruct (can_change (k_kind P k) && c_plans cfg && negb (_ =? INVALID)).
     + split; [|repeat split; auto]. eapply fr_trans; [|apply fr_log_rec; exact I].
-      apply fr_upd_core; auto. cbn [set_plan plan]. apply PI_fail.
+      apply fr_upd_core; auto. cbn [set_plan plan]. apply PI_fail_set.
     + split; [apply fr_refl|apply same_ctl_refl].
   - destruct (can_plan cfg (k_kind P k)); [|split; [apply fr_refl|apply same_ctl_refl]].
     destruct Hwf as [Ho Hd].
@@ -416,6 +428,16 @@ Proof.
   - right. exists l1, l2'. split; [exact E|]. exact (proj2 (pio_next HPI d l1 y l2' Hpi E)).
 Qed.
 
+Lemma plan_scan_tcmask : forall fuel curr next tc s, tcmask tc -> tcmask (snd (plan_scan P cfg fuel curr next tc s)).
+Proof.
+  induction fuel as [|f IH]; intros curr next tc s Htc; cbn [plan_scan]; [exact Htc|].
+  destruct (curr <? cap); [|exact Htc].
+  destruct (registry_is_active P (co P s) _); [|exact Htc].
+  destruct (ba_get _ _).
+  - destruct (tk_origin _ =? tk_dest _); apply IH; [exact Htc|apply tm_clear; exact Htc].
+  - apply IH. exact Htc.
+Qed.
+
 Lemma plan_scan_fr : forall fuel curr next tc s,
   cap <= 255 -> PI (plan P (co P s)) -> scan_pos (plan P (co P s)) curr next ->
   fr noncb s (fst (plan_scan P cfg fuel curr next tc s)).
@@ -440,7 +462,7 @@ Proof.
     destruct I1 as [El1 Hpi1].
     destruct (tk_origin t =? tk_dest t).
     + set (s2 := upd_plan P (fun d => pd_with_succ P d (ba_clear (pd_succ d) (N.of_nat (tk_origin t)))) s1).
-      assert (F2 : fr noncb s1 s2) by (apply fr_upd_plan; intros; apply PI_succ; assumption).
+      assert (F2 : fr noncb s1 s2) by (apply fr_upd_plan; intros; apply PI_succ_clear; assumption).
       assert (El2 : plan_indices P cap (plan P (co P s2)) = l1 ++ curr :: l2).
       { subst s2. cbn [upd_plan upd_core co set_plan plan]. rewrite (pio_indices_bits HPI). exact El1. }
       pose proof (fr_pi _ _ _ F2 Hpi1) as Hpi2.
@@ -479,12 +501,14 @@ Proof.
     + unfold plan_nonempty in Ene. destruct (plan_indices_first _ Ene) as [r Er].
       pose proof (plan_scan_fr (S cap) (first (pd_pl (plan P (co P s)))) (it_next P cap (plan P (co P s)) (first (pd_pl (plan P (co P s)))))
                     (ba_set_all (N.of_nat n) (ba_init (N.of_nat n))) s Hc Hpi) as F.
-      destruct (plan_scan P cfg (S cap) _ _ _ s) as [s1 tc]. cbn [fst] in F.
+      pose proof (plan_scan_tcmask (S cap) (first (pd_pl (plan P (co P s)))) (it_next P cap (plan P (co P s)) (first (pd_pl (plan P (co P s)))))
+                    (ba_set_all (N.of_nat n) (ba_init (N.of_nat n))) s tm_full) as Htc.
+      destruct (plan_scan P cfg (S cap) _ _ _ s) as [s1 tc]. cbn [fst] in F. cbn [snd] in Htc.
       split; [|reflexivity].
       eapply fr_trans.
       * eapply fr_weaken; [|apply F]. { intro e. apply noncb_ev_ok. }
         right. exists [], r. split; [exact Er|]. exact (proj2 (pio_next HPI _ [] _ r Hpi Er)).
-      * apply fr_upd_plan. intros; apply PI_succ; assumption.
+      * apply fr_upd_plan. intros; apply PI_succ_and; assumption.
     + pose proof (deliver_quiet Root MPlanSucceeded s (set_status P k SSuccess) eq_refl) as H.
       destruct (deliver P cfg orc Root MPlanSucceeded _) as [s1 k1]. destruct H as [F K].
       split; [|destruct K as (K & _); exact K].
@@ -642,7 +666,7 @@ Proof. intros a b c d. constructor; cbn [upd_core co]; auto. Qed.
 Lemma pd_clear_task_status_PI d sid : PI d -> PI (pd_clear_task_status P d sid).
 Proof.
   intro H. unfold pd_clear_task_status. destruct (sid =? INVALID); [exact H|].
-  apply PI_fail. apply PI_succ. exact H.
+  apply (pio_fail_clear HPI (pd_with_succ P d (ba_clear (pd_succ d) (N.of_nat sid)))). apply PI_succ_clear. exact H.
 Qed.
 
 Lemma state_exit_fr w k s :
